@@ -568,7 +568,11 @@ def main():
         b = None
         violations.append(('the harness does not build against the current /repo', dict(kind='build', log=str(e))))
     hyg = hygiene()
-    cp = coq_property(pid)
+    if os.environ.get('VERIF_SUBSEARCH'):
+        # a search round of a parent run that has already judged the proofs: correspondence only
+        cp = dict(ok=True, theorems=[], axioms=[], log='', file='Properties/%s.v' % pid)
+    else:
+        cp = coq_property(pid)
     proof_ok = cp['ok'] and not hyg
     if b is not None:
         # a translator that refuses the current source leaves its generated file stale:
@@ -765,7 +769,7 @@ def main():
         budget = 300 if tier == 'quick' else 1500
         t_s = time.time()
         tried = 0
-        for k in range(1, 9):
+        for k in range(1, 61):
             if time.time() - t_s > budget:
                 break
             env = dict(os.environ, VERIF_SUBSEARCH='1', VERIF_SEED=str(seed * 31 + 1000003 * k))
